@@ -36,6 +36,31 @@ Proof.
   apply Z.mul_nonneg_nonneg; [exact Hsc|]. now apply vsum_nonneg.
 Qed.
 
+Definition vsum_all (smp : list sample) : Z := vsum (fun _ => true) smp.
+
+Lemma round_div_le a b : 0 <= a -> 2 <= b -> round_div a b <= a.
+Proof.
+  intros Ha Hb. unfold round_div.
+  pose proof (Z.div_mod a b ltac:(lia)) as D. pose proof (Z.mod_pos_bound a b ltac:(lia)) as M.
+  assert (Hq : 0 <= a / b) by (apply Z.div_pos; lia).
+  assert (Hq2 : a / b * 2 <= b * (a / b)) by nia.
+  destruct (Z.ltb_spec (a mod b * 2) b); [lia|].
+  destruct (Z.ltb_spec b (a mod b * 2)); [lia|]. destruct (Z.even _); lia.
+Qed.
+
+Lemma rate_spec_le w sc smp now x :
+  0 <= sc -> values_nonneg smp -> rate_spec w sc smp now = Some x -> x <= sc * vsum_all smp.
+Proof.
+  intros Hsc Hv. unfold rate_spec. destruct (oldest smp) as [f|]; [|discriminate].
+  destruct (0 <? cnt _ smp); cbn [andb]; [|discriminate].
+  destruct (Z.ltb_spec 1 (now - Z.max f (now - w + 1) + 1)); [|discriminate].
+  intros [= <-].
+  pose proof (vsum_nonneg (in_window w now) smp Hv) as H0.
+  pose proof (vsum_le_all (in_window w now) smp Hv) as H1. fold (vsum_all smp) in H1.
+  eapply Z.le_trans; [apply round_div_le; [apply Z.mul_nonneg_nonneg; lia|lia]|].
+  apply Z.mul_le_mono_nonneg_l; lia.
+Qed.
+
 (* rate() leaves an invariant that mentions the call time *)
 Lemma rate_ok' s smp last now :
   Inv s smp last -> le_opt last now ->
@@ -68,9 +93,10 @@ Lemma rbe_add_ok s smp last a :
   exists s' o smp',
     rbe_add s a = Ok (s', o) /\ RInv0 s' smp' (Some (a_time a)) /\
     keys (ssrcs s') = note (keys (ssrcs s)) (a_ssrc a) /\
-    (values_nonneg smp -> 0 <= a_size a -> values_nonneg smp') /\
+    (values_nonneg smp -> 0 <= a_size a ->
+     values_nonneg smp' /\ vsum_all smp' <= vsum_all smp + a_size a) /\
     ((control s' = control s /\ o = None) \/
-     (exists et r, (values_nonneg smp' -> forall x, et = Some x -> 0 <= x) /\
+     (exists et r, (values_nonneg smp' -> forall x, et = Some x -> 0 <= x <= 8000 * vsum_all smp') /\
                    update (control s) (a_verdict a) et (a_time a) (a_fl a) = Ok (control s', r) /\
                    o = est_out s' r)).
 Proof.
@@ -83,18 +109,22 @@ Proof.
              | Some _ => (r1, true)
              | None => if incoming_init s then (reset r1, false) else (r1, incoming_init s)
              end) = (r2, ii) /\ Inv r2 smp2 (Some now) /\ window_size r2 = 1000 /\ scale r2 = 8000 /\
-            (values_nonneg smp -> values_nonneg smp2)).
-  { destruct x; [exists r1, true, smp; repeat split; auto; congruence|].
+            (values_nonneg smp -> values_nonneg smp2 /\ vsum_all smp2 <= vsum_all smp)).
+  { destruct x; [exists r1, true, smp; repeat split; auto; try congruence; lia|].
     destruct (incoming_init s).
     - exists (reset r1), false, []. split; [reflexivity|]. split; [eapply Inv_reset; exact I1|].
-      cbn [reset window_size scale]. repeat split; try congruence. intros _ t v [].
-    - exists r1, false, smp. repeat split; auto; congruence. }
+      cbn [reset window_size scale]. repeat split; try congruence; [intros t v []|].
+      unfold vsum_all at 1. cbn [vsum]. apply vsum_nonneg. assumption.
+    - exists r1, false, smp. repeat split; auto; try congruence; lia. }
   destruct H2 as (r2 & ii & smp2 & -> & I2 & W2 & S2 & V2).
   destruct (add_ok r2 smp2 (Some now) (a_size a) now I2 (Z.le_refl _)) as (r3 & E3 & I3 & W3 & S3).
   rewrite E3.
   set (smp3 := (now, a_size a) :: smp2) in *.
-  assert (V3 : values_nonneg smp -> 0 <= a_size a -> values_nonneg smp3).
-  { intros Hv Hs t v [Hin|Hin]; [injection Hin as <- <-; exact Hs|]. now apply (V2 Hv t v). }
+  assert (V3 : values_nonneg smp -> 0 <= a_size a ->
+               values_nonneg smp3 /\ vsum_all smp3 <= vsum_all smp + a_size a).
+  { intros Hv Hs. destruct (V2 Hv) as [V2a V2b]. split.
+    - intros t v [Hin|Hin]; [injection Hin as <- <-; exact Hs|]. now apply (V2a t v).
+    - unfold smp3, vsum_all in *. cbn [vsum fst snd]. lia. }
   destruct (match last_update s with
             | Some lu => (feedback_interval <? now - lu) || is_over (a_verdict a)
             | None => true
@@ -103,9 +133,10 @@ Proof.
     set (et := rate_spec (window_size r3) (scale r3) smp3 now).
     destruct (update_never_raises (control s) (a_verdict a) et now (a_fl a) HA) as (c' & r & Eu & HA').
     rewrite Eu.
-    assert (Het : values_nonneg smp3 -> forall y, et = Some y -> 0 <= y).
-    { intros Hv y Hy. unfold et in Hy. rewrite S3, S2 in Hy.
-      exact (rate_spec_nonneg _ 8000 _ _ _ ltac:(lia) Hv Hy). }
+    assert (Het : values_nonneg smp3 -> forall y, et = Some y -> 0 <= y <= 8000 * vsum_all smp3).
+    { intros Hv y Hy. unfold et in Hy. rewrite S3, S2 in Hy. split.
+      - exact (rate_spec_nonneg _ 8000 _ _ _ ltac:(lia) Hv Hy).
+      - exact (rate_spec_le _ 8000 _ _ _ ltac:(lia) Hv Hy). }
     destruct r as [target|].
     + eexists; exists (Some (target, lastn 255 (keys (dict_set (ssrcs s) (a_ssrc a) now)))), smp3.
       split; [reflexivity|]. split; [|split; [apply keys_dict_set|split; [exact V3|]]].
@@ -202,7 +233,7 @@ Proof.
   apply Forall_cons_iff in Hsz. destruct Hsz as [Hs0 Hsz'].
   destruct (rbe_add_ok s smp last a H0 Hle) as (s1 & o & smp1 & E & H01 & Hk1 & Hv1 & Hc).
   cbn [fl_admissible] in Hfl. rewrite E in *. destruct Hfl as [Hfl1 Hfl].
-  specialize (Hv1 Hv Hs0).
+  destruct (Hv1 Hv Hs0) as [Hv1' _]. clear Hv1. rename Hv1' into Hv1.
   (* the controller invariant holds at some time <= now *)
   assert (HAt : exists t, t <= a_time a /\ AInv (control s) t).
   { destruct last as [t|]; [exists t; split; [exact Hle|exact HA]|].
@@ -212,7 +243,7 @@ Proof.
   - apply (IH s1 smp1 (Some (a_time a))); try assumption.
     split; [exact H01|]. split; [exact Hv1|]. rewrite Ec.
     split; [eapply AInv_mono; eauto|]. split; [exact Hp|]. rewrite Hk1, Hk. reflexivity.
-  - destruct (update_spec (control s) t (a_verdict a) et (a_time a) (a_fl a) HAt Ht (Het Hv1))
+  - destruct (update_spec (control s) t (a_verdict a) et (a_time a) (a_fl a) HAt Ht (fun x Hx => proj1 (Het Hv1 x Hx)))
       as (c' & r' & Eu' & Hspec).
     rewrite Eu in Eu'. injection Eu' as <- <-.
     destruct r as [e|]; cbn [est_out].
